@@ -221,6 +221,43 @@ pub fn run_attacks_out(ctx: &mut Ctx, attacks: &[Attack]) -> Vec<Outcome<Value>>
         } else {
             ctx.notes.push("same-thread replay did not return within its allowance".into());
         }
+        // and on fresh threads whose FIRST contact with an algorithm is as the algorithm of a key-binding JWT: an accepted key-bound
+        // call (issuer algorithm A, holder algorithm B, A != B), then every call whose issuer-signed JWT uses B
+        let alg_of = |jwt: Option<&str>| jwt.and_then(|j| j.split('.').next()).and_then(unb64_json).and_then(|h| h.get("alg").and_then(Value::as_str).map(String::from));
+        let algs: Vec<(Option<String>, Option<String>)> = attacks.iter().map(|a| match split(a.args.fmt, &a.args.input) { Some(p) => (alg_of(Some(&p.jwt)), alg_of(p.kb.as_deref())), None => (None, None) }).collect();
+        let mut kb_algs: Vec<String> = algs.iter().filter_map(|x| x.1.clone()).collect();
+        kb_algs.sort();
+        kb_algs.dedup();
+        for b in kb_algs {
+            let primer = (0..attacks.len()).find(|&k| results[k].0.out.is_ok() && attacks[k].args.aud.is_some() && algs[k].1.as_deref() == Some(b.as_str()) && algs[k].0.is_some() && algs[k].0.as_deref() != Some(b.as_str()));
+            let primer = match primer {
+                Some(k) => k,
+                None => continue,
+            };
+            let mut order = vec![primer];
+            order.extend((0..attacks.len()).filter(|&k| k != primer && algs[k].0.as_deref() == Some(b.as_str())).take(600));
+            if order.len() < 2 {
+                continue;
+            }
+            let calls: Vec<VerifyArgs> = order.iter().map(|&k| attacks[k].args.clone()).collect();
+            if let Some(seq) = verify_sequence(&calls, &[]) {
+                ctx.impl_calls += calls.len();
+                ctx.oracle_checks += 1;
+                ctx.count_n(&format!("same_thread_replay.primed_by_key_binding_alg_{}.calls", b), calls.len());
+                let mut reported = 0;
+                for (pos, &k) in order.iter().enumerate() {
+                    let (alone, together) = (&results[k].0, &seq[pos]);
+                    if alone.out.class() != together.out.class() && alone.t0 + 20 > together.t1 && reported < 5 {
+                        reported += 1;
+                        let a = &attacks[k];
+                        ctx.violation("oracle", "verify", &format!("the verdict depends on what the thread verified before: {} alone, {} on a thread that first met {} as the algorithm of a key-binding JWT ({})", alone.out.class(), together.out.class(), b, a.name),
+                                      json!({"attack": a.name, "input": a.args.input, "fmt": a.args.fmt.name(), "resolver": a.args.resolver.json(), "aud": a.args.aud, "nonce": a.args.nonce, "origin": a.origin, "expect": a.expect.json(),
+                                             "first_call_of_the_thread": {"input": attacks[primer].args.input, "fmt": attacks[primer].args.fmt.name(), "aud": attacks[primer].args.aud, "nonce": attacks[primer].args.nonce, "resolver": attacks[primer].args.resolver.json()}}),
+                                      together.out.describe(), alone.out.describe());
+                    }
+                }
+            }
+        }
     }
     let resp = run_model(&reqs);
     for (a, (r, (i, j), spec)) in attacks.iter().zip(&results) {
